@@ -61,7 +61,7 @@ def check(repo, tier="quick"):
     rule_d(repo, res)
     rule_e(repo, res, m, where)
     res.floor("C17.a", 8)
-    res.floor("C17.b", 5)
+    res.floor("C17.b", 6)
     res.floor("C17.c", 4)
     res.floor("C17.d", 4)
     res.floor("C17.e", 6)
@@ -154,6 +154,10 @@ def rule_b(res, V, where):
     want = {("self._values", "add_value"), ("%s._values" % op, "add_value"), ("self._ranges", "add_range"), ("%s._ranges" % op, "add_range")}
     ret_ok = any(isinstance(r, ast.Return) and dotted(r.value) == outv for r in ast.walk(a))
     res.check(outv is not None and want <= seen and ret_ok, "C17.b", "__add__:union-of-both-operands", "%s:ValueSet.__add__" % where, "the union must insert the values and the ranges of both operands into a new set (missing: %s)" % sorted(want - seen), by="four insertion loops into a fresh set")
+    # the union is a new object: every return of __add__ is a constructor call or the fresh local
+    rets = [r for r in ast.walk(a) if isinstance(r, ast.Return)]
+    aliased = [short(r.value) for r in rets if not ((isinstance(r.value, ast.Call) and (dotted(r.value.func) in ("AnyValue", "ValueSet") or norm(r.value.func) == "type(self)")) or dotted(r.value) == outv)]
+    res.check(bool(rets) and not aliased, "C17.b", "__add__:fresh-result", "%s:ValueSet.__add__" % where, "the union returns %s, an operand itself: adding values or ranges to the result (as `out += cell` accumulations then do) silently changes that operand -- e.g. a cell of the constraint table" % aliased, by="every return is a newly constructed set")
     # add_value only when not already a member
     av = V["add_value"]
     p = av.args.args[1].arg
